@@ -273,6 +273,14 @@ def gen_proto_lazy(rng):
     return lines + [f'effect {t} {src} : {o}' for (t, src), o in effects.items()] + body
 
 
+class _ProtoStream:
+    MODEL = 'logic'
+
+
+def stream_for(lines):
+    return _ProtoStream if any(ln.startswith(('ptype', 'pclass')) for ln in lines) else None
+
+
 def extra_checks(ctx):
     rng = random.Random(ctx.seed * 7907 + 19)
     n = 300 if ctx.tier == 'quick' else 6000
